@@ -111,6 +111,20 @@ static void lin_dense(int N, uint32_t p, VhRng& rng, int flavour) {
     }
     delete_TorusPolynomial(A); delete_TorusPolynomial(B); delete_TorusPolynomial(R); delete_IntPolynomial(IA); delete_IntPolynomial(IR);
 }
+// norms and distances (toruspolynomial-functions.cpp): sum of squares of an integer polynomial (both implementations), largest coefficient distance of two
+// integer polynomials, largest torus distance of two torus polynomials (printed in units of 2^-32: the double holds it exactly)
+static void norms(int N, VhRng& rng, int flavour) {
+    IntPolynomial* p = new_IntPolynomial(N); IntPolynomial* q = new_IntPolynomial(N); TorusPolynomial* a = new_TorusPolynomial(N); TorusPolynomial* b = new_TorusPolynomial(N);
+    std::vector<uint32_t> av(N), bv(N);
+    for (int i = 0; i < N; i++) { p->coefs[i] = (int32_t)rng.below(2001) - 1000; q->coefs[i] = flavour == 1 ? p->coefs[i] : (int32_t)rng.below(2001) - 1000;
+        av[i] = flavour ? EXT[rng.below(8)] : rng.u32(); bv[i] = flavour == 1 ? av[i] : flavour ? EXT[rng.below(8)] : rng.u32(); a->coefsT[i] = (Torus32)av[i]; b->coefsT[i] = (Torus32)bv[i]; }
+    if (flavour == 2 && N > 1) { q->coefs[N - 1] = p->coefs[N - 1] + 1999; bv[0] = av[0] + 0x80000000u; b->coefsT[0] = (Torus32)bv[0]; }       // the maximum in the last / first position; distance exactly 1/2
+    double td = torusPolynomialNormInftyDist(a, b) * 4294967296.0;
+    VH_B; vh_s("k", "nrm"); VH_C; vh_i("N", N); VH_C; fputs("\"p\":[", vh_out); for (int i = 0; i < N; i++) fprintf(vh_out, "%s%d", i ? "," : "", p->coefs[i]); fputs("],\"q\":[", vh_out); for (int i = 0; i < N; i++) fprintf(vh_out, "%s%d", i ? "," : "", q->coefs[i]); fputs("]", vh_out); VH_C;
+    wl("a", av.data(), N); VH_C; wl("b", bv.data(), N); VH_C; vh_i("sq2", (long)intPolynomialNormSq2(p)); VH_C; vh_i("n2sq", (long)intPolynomialNorm2sq(p)); VH_C; vh_i("idist", (long)intPolynomialNormInftyDist(p, q)); VH_C;
+    vh_w("tdist", (uint32_t)(uint64_t)td); VH_C; vh_i("texact", td == (double)(uint64_t)td && td <= 2147483648.0 ? 1 : 0); VH_E;
+    delete_IntPolynomial(p); delete_IntPolynomial(q); delete_TorusPolynomial(a); delete_TorusPolynomial(b);
+}
 int main(int argc, char** argv) {
     vh_init();
     const char* mode = argc > 1 ? argv[1] : "";
@@ -145,7 +159,7 @@ int main(int argc, char** argv) {
         }
     } else if (!strcmp(mode, "lin")) {
         uint32_t ps[] = {0u, 1u, 0xffffffffu, 2u, 0x80000000u, 0x7fffffffu, 32767u, 0xffff8000u, 12345u};
-        for (long N : Ns) { if (N <= 64) for (int q = 0; q < 9; q++) lin_dense(N, ps[q], rng, q & 1); lin_dense(N, 0x80000000u, rng, 1); lin_dense(N, rng.u32(), rng, 0); }
+        for (long N : Ns) { if (N <= 64) for (int q = 0; q < 9; q++) lin_dense(N, ps[q], rng, q & 1); lin_dense(N, 0x80000000u, rng, 1); lin_dense(N, rng.u32(), rng, 0); if (N <= 64) for (int fl = 0; fl < 3; fl++) norms((int)N, rng, fl); }
     } else { fprintf(stderr, "usage: h_ring mul|xai|lin --N list ...\n"); return 2; }
     fflush(stdout);
     return 0;
